@@ -23,12 +23,17 @@ pub struct Seed {
     pub aes: bool,
     /// (data_pos, csize, central crc field pos, local crc field pos, ae2)
     pub regions: Vec<(u64, u64, u64, u64, bool)>,
+    /// what each entry of the undamaged seed decodes to (independent decoder); judges AE-2 entries, whose
+    /// authentication code takes the place of the CRC
+    pub plain: Vec<Option<Vec<u8>>>,
 }
 
 fn seed_from_bytes(label: &str, bytes: Vec<u8>, password: Option<&[u8]>, streamable: bool, ae2: &[bool]) -> Seed {
     let p = zipparse::parse(&bytes, &Opts::lenient()).expect("seed archive does not parse");
     let regions = p.entries.iter().enumerate().map(|(i, e)| (e.data_pos, e.csize, e.central_pos + 16, e.local_pos + 14, ae2.get(i).copied().unwrap_or(false))).collect();
-    Seed { label: label.to_string(), bytes, password: password.map(|p| p.to_vec()), streamable, aes: !ae2.is_empty(), regions }
+    let opts = Opts { password: password.map(|p| p.to_vec()), ..Opts::lenient() };
+    let plain = p.entries.iter().map(|e| zipparse::content(&bytes, e, &opts).ok()).collect();
+    Seed { label: label.to_string(), bytes, password: password.map(|p| p.to_vec()), streamable, aes: !ae2.is_empty(), regions, plain }
 }
 
 fn payloads(seed: u64) -> (Vec<u8>, Vec<u8>) {
@@ -96,7 +101,41 @@ pub fn seeds(seed: u64, quick: bool) -> Vec<Seed> {
             ],
             ..Default::default()
         };
-        out.push(seed_from_bytes(label, build(&spec).0, Some(PW), false, &[ver == 2, ver == 2]));
+        let mut sd = seed_from_bytes(label, build(&spec).0, Some(PW), false, &[ver == 2, ver == 2]);
+        // (the structural validator does not decrypt AES: the builder knows what it encrypted)
+        sd.plain = vec![Some(a.clone()), Some(b.clone())];
+        out.push(sd);
+    }
+    // deflate streams that can end before the payload does: entry a is two blocks (the first not final, so one bit
+    // ends the stream early), entry b carries 6 spare bytes behind its final block. Plain (both readers), AE-1, AE-2.
+    let two_blocks = {
+        use std::io::Write;
+        let mut e = flate2::write::DeflateEncoder::new(Vec::new(), flate2::Compression::new(6));
+        e.write_all(&a[..a.len() / 2]).unwrap();
+        e.flush().unwrap();
+        e.write_all(&a[a.len() / 2..]).unwrap();
+        e.finish().unwrap()
+    };
+    let mut trailing = crate::reference::codec::compress(8, &b);
+    trailing.extend_from_slice(&[0x55, 0xaa, 0x00, 0xff, 0x01, 0x02]);
+    for (ver, label) in [(0u16, "builder-early-end"), (1, "builder-ae1-early-end"), (2, "builder-ae2-early-end")] {
+        let enc = |seed: u8| if ver == 0 { Enc::None } else { Enc::Aes { version: ver, strength: 1, pw: PW.to_vec(), salt_seed: seed } };
+        let spec = Spec {
+            entries: vec![
+                ESpec { name: b"a".to_vec(), method: 8, content: a.clone(), raw_payload: Some(two_blocks.clone()), enc: enc(5), ..Default::default() },
+                ESpec { name: b"b".to_vec(), method: 8, content: b.clone(), raw_payload: Some(trailing.clone()), enc: enc(6), ..Default::default() },
+            ],
+            ..Default::default()
+        };
+        let pw = if ver == 0 { None } else { Some(PW) };
+        let mut sd = seed_from_bytes(label, build(&spec).0, pw, ver == 0, &if ver == 0 { vec![] } else { vec![ver == 2, ver == 2] });
+        sd.plain = vec![Some(a.clone()), Some(b.clone())];
+        out.push(sd);
+    }
+    for sd in &out {
+        for (i, r) in sd.regions.iter().enumerate() {
+            assert!(!r.4 || sd.plain.get(i).map_or(false, |p| p.is_some()), "AE-2 seed entry without known content");
+        }
     }
     out
 }
@@ -146,6 +185,12 @@ fn read_pattern<R: Read>(r: &mut R, bufsize: usize, zero_reads: bool, limit: usi
 /// One pass over every entry of `bytes` by one route; the oracle is applied to each entry.
 /// Returns per-entry outcomes.
 fn pass(bytes: &[u8], password: Option<&[u8]>, stream: bool, bufsize: usize, zero: bool, ae2: &[bool]) -> Vec<Out> {
+    pass_with(bytes, password, stream, bufsize, zero, ae2, &[])
+}
+
+/// `plain`: the undamaged content per entry. An AE-2 entry has no CRC to compare with; its authentication code
+/// must have rejected any change, so a clean EOF is only acceptable with exactly the original bytes.
+fn pass_with(bytes: &[u8], password: Option<&[u8]>, stream: bool, bufsize: usize, zero: bool, ae2: &[bool], plain: &[Option<Vec<u8>>]) -> Vec<Out> {
     let mut outs = vec![];
     if stream {
         let mut cur = Cursor::new(bytes);
@@ -200,7 +245,16 @@ fn pass(bytes: &[u8], password: Option<&[u8]>, stream: bool, bufsize: usize, zer
                 Some(mut f) => {
                     let declared = f.crc32();
                     match read_pattern(&mut f, bufsize, zero, 1 << 20) {
-                        Some(data) => Out::Clean { ok: crc32::crc32(&data) == declared || ae2.get(i).copied().unwrap_or(false) },
+                        Some(data) => Out::Clean {
+                            ok: if ae2.get(i).copied().unwrap_or(false) {
+                                match plain.get(i) {
+                                    Some(Some(p)) => *p == data,
+                                    _ => true,
+                                }
+                            } else {
+                                crc32::crc32(&data) == declared
+                            },
+                        },
                         None => Out::ReadErr,
                     }
                 }
@@ -223,7 +277,11 @@ fn judge(seed: &Seed, bytes: &[u8], what: &str, case: &dyn Fn() -> Value, bufs: 
         for &b in bufs {
             for zero in [false, true] {
                 st.evals += 1;
-                let outs = pass(bytes, seed.password.as_deref(), stream, b, zero, &ae2);
+                // the content comparison for AE-2 entries applies to damage of the entry's data (salt, verifier, ciphertext,
+                // authentication code): that is what the authentication code covers. A lying size field makes the reader
+                // run into the physical end of the stream, which the statement does not speak about for AE-2.
+                let plain: &[Option<Vec<u8>>] = if what.starts_with("data") || what.starts_with("byte") && what.contains("(data)") { &seed.plain } else { &[] };
+                let outs = pass_with(bytes, seed.password.as_deref(), stream, b, zero, &ae2, plain);
                 for (i, o) in outs.iter().enumerate() {
                     match o {
                         Out::NotOpened => st.class("not-opened"),
@@ -239,9 +297,10 @@ fn judge(seed: &Seed, bytes: &[u8], what: &str, case: &dyn Fn() -> Value, bufs: 
                             st.viol(
                                 format!("completed-read-of-corrupt-data/{}/{route}/{what}", seed.label),
                                 format!(
-                                    "seed {} with {what}: entry {i} read to a clean EOF through the {route} reader (buffer {}, empty reads {zero}) but the CRC of the returned bytes differs from the declared one",
+                                    "seed {} with {what}: entry {i} read to a clean EOF through the {route} reader (buffer {}, empty reads {zero}) but {}",
                                     seed.label,
-                                    if b == 0 { "read_to_end".to_string() } else { b.to_string() }
+                                    if b == 0 { "read_to_end".to_string() } else { b.to_string() },
+                                    if ae2.get(i).copied().unwrap_or(false) { "the returned bytes differ from the entry's content although nothing reported the failed authentication (AE-2)" } else { "the CRC of the returned bytes differs from the declared one" }
                                 ),
                                 case(),
                                 order,
@@ -280,10 +339,10 @@ pub fn run(args: &Args) -> i32 {
     let thorough = args.tier.thorough();
     let all = seeds(seed, false);
     let bufs: Vec<usize> = vec![1, 2, 7, 4096, 0];
-    ctx.rule = "E-PROD over damage to seed archives (two entries of 24 and ~60 bytes each, plus one seed of empty stored/deflated files and a directory; writer-made stored/deflate/bzip2/zstd and ZipCrypto, builder-made with data descriptors, AE-1, AE-2): \
+    ctx.rule = "E-PROD over damage to seed archives (two entries of 24 and ~60 bytes each, plus one seed of empty stored/deflated files and a directory; writer-made stored/deflate/bzip2/zstd and ZipCrypto, builder-made with data descriptors, AE-1, AE-2, and plain/AE-1/AE-2 deflate entries whose stream can end before the payload does (two blocks; spare bytes behind the final block)): \
         every one of the 255 other byte values at every offset of every entry's data region and of its CRC and size fields (central, and local for the streaming route) — in the quick tier the AES seeds get the 8 single-bit flips per byte instead; \
         every payload truncation length; payloads of the two entries swapped; each damaged archive is read entry by entry through the seekable and (where supported) the streaming reader with caller \
-        buffers {1, 2, 7, 4096, read_to_end} with and without interposed empty reads. Oracle: a read sequence that ends in a clean EOF returned bytes whose CRC-32 equals the declared one (AE-2 exempt). \
+        buffers {1, 2, 7, 4096, read_to_end} with and without interposed empty reads. Oracle: a read sequence that ends in a clean EOF returned bytes whose CRC-32 equals the declared one; for AE-2 entries (no CRC; covered by their authentication code) a clean EOF must have returned exactly the original bytes. \
         distinct_nontrivial = distinct damaged archives (counted by the enumerator; positions x values never repeat)."
         .into();
     ctx.assume("the harness CRC-32 is correct (self-tested against known vectors at start-up)");
@@ -389,7 +448,7 @@ pub fn run(args: &Args) -> i32 {
             if stream && !s.streamable {
                 continue;
             }
-            let outs = pass(&s.bytes, s.password.as_deref(), stream, 7, false, &ae2);
+            let outs = pass_with(&s.bytes, s.password.as_deref(), stream, 7, false, &ae2, &s.plain);
             if outs.len() != s.regions.len() || outs.iter().any(|o| *o != (Out::Clean { ok: true })) {
                 ctx.machinery(format!("undamaged seed {} does not read cleanly: {outs:?}", s.label));
             }
